@@ -1,6 +1,7 @@
 //! rsbdd-conform: binds the TLA+ specification under /verif/spec to the real rsbdd code.
 //!   replay-* : spec -> impl (TLC-generated cases/behaviours are stepped through the real code)
 //!   record-* : impl -> spec (the real code is driven; every call is logged as one ndjson event)
+mod fuzz;
 mod lang;
 mod record_bdd;
 mod record_env;
@@ -67,6 +68,26 @@ fn main() {
         "exec-text" => {
             drop(out);
             record_lang::exec_text(&args[2..])
+        }
+        "describe" => {
+            drop(out);
+            record_lang::describe(&args[2..])
+        }
+        "gen-formulas" => {
+            drop(out);
+            record_lang::gen_formulas(&args[2..])
+        }
+        "dot-cases" => {
+            drop(out);
+            record_lang::dot_cases(&args[2..])
+        }
+        "fuzz" => {
+            drop(out);
+            fuzz::run(&args[2..])
+        }
+        "probe-files" => {
+            drop(out);
+            fuzz::probe_files(&args[2..])
         }
         "exec-lang" => {
             drop(out);
